@@ -17,10 +17,22 @@ partition.commitQueue                           `Srv.queue` (new queue per leade
 partition.commitCheck (buffered chan)           `Srv.commitCheck : Nat` (pending signals, capacity = #replicas;
                                                   the channel is created once per partition object and is not
                                                   drained when leadership ends)
-replicator.lastSeen / lastCaughtUp              `Srv.caughtUp : Sid ↦ Int` — "was caught up within max lag
-                                                  time" flag, set when `req.Offset ≥ newest` (value: the offset
-                                                  at that instant, ghost), cleared nondeterministically
-                                                  (`clearCaughtUp` = time passes)
+replicator.lastCaughtUp                         `Srv.caughtUp : Sid ↦ Int` — "was caught up within max lag
+                                                  time" flag (lastCaughtUpElapsed below maxLagTime), set when
+                                                  `req.Offset ≥ newest` (value: the offset at that instant,
+                                                  ghost), cleared nondeterministically (`clearCaughtUp` = time
+                                                  passes)
+replicator.lastSeen                             `Srv.seen : List Sid` — "sent a fetch within max lag time"
+                                                  flag (lastSeenElapsed below maxLagTime), set by every fetch
+                                                  that reaches the replicator, cleared by `clearSeen` (only
+                                                  after `caughtUp`: lastCaughtUp ≤ lastSeen in the code)
+replicator.tick                                 `outOfSync` = the REGENERATED decision `Gen.Protocol.tickOutOfSync`
+                                                  (connectives and comparison operators) over the two flags;
+                                                  shrink / expand proposals are enabled for the (outOfSync, inISR)
+                                                  valuations of `Gen.Protocol.tickShrinkWhen / tickExpandWhen`
+follower fetch                                  `Net.replReq` carries the follower's epoch / newest offset iff
+                                                  `Gen.Protocol.fetchCarriesEpoch / fetchOffsetIsNewest`; the
+                                                  leader drops it by `Gen.Protocol.replReqReject`
 partition.recovered                             `Srv.recovered`
 Raft log of metadata ops                        `State.committed : List MetaOp` (index i ↦ epoch i, 1-based),
                                                   `Srv.applied` = how many of them this server has applied
@@ -138,6 +150,7 @@ structure Srv where
   queue : List Ack := []
   commitCheck : Nat := 0
   caughtUp : List (Sid × Int) := []
+  seen : List Sid := []
   rid : Nat := 0
   waiting : Option Nat := none
   deriving Repr, Inhabited
@@ -184,6 +197,37 @@ def sInsert (xs : List Sid) (x : Sid) : List Sid :=
 def removeFirst {α} [DecidableEq α] : List α → α → List α
   | [], _ => []
   | x :: xs, a => if x = a then xs else x :: removeFirst xs a
+
+/-! ### ISR membership as `replicator.tick` decides it, the term fence of fetches -/
+
+/-- Abstract elapsed time of one of the replicator's two timers, relative to `maxLagTime` (the
+bound is 0): below it while the flag is set, above it once it is cleared. -/
+def lagOf (fresh : Bool) : Int := if fresh then -1 else 1
+
+/-- `outOfSync` of `replicator.tick` for replica `r` on leader `sv`: the regenerated decision over
+(lastSeenElapsed · maxLagTime, lastCaughtUpElapsed · maxLagTime). -/
+def outOfSync (sv : Srv) (r : Sid) : Bool :=
+  Gen.Protocol.tickOutOfSync.eval fun i =>
+    if i = 0 then (lagOf (sv.seen.contains r), 0) else (lagOf (lookup sv.caughtUp r).isSome, 0)
+
+/-- `tick` calls `shrinkISR()` / `expandISR()` for the regenerated (outOfSync, inISR) valuations. -/
+def tickShrinks (sv : Srv) (r : Sid) : Bool :=
+  Gen.Protocol.tickShrinkWhen.contains (outOfSync sv r, (keys sv.isrOff).contains r)
+
+def tickExpands (sv : Srv) (r : Sid) : Bool :=
+  Gen.Protocol.tickExpandWhen.contains (outOfSync sv r, (keys sv.isrOff).contains r)
+
+/-- `handleReplicationRequest` drops a request of another term: the regenerated decision over
+(req.LeaderEpoch · 0, req.LeaderEpoch · p.LeaderEpoch). -/
+def rejectFetch (reqEpoch leaderEpoch : Nat) : Bool :=
+  Gen.Protocol.replReqReject.eval fun i =>
+    if i = 0 then ((reqEpoch : Int), 0) else ((reqEpoch : Int), (leaderEpoch : Int))
+
+/-- What `sendReplicationRequest` puts into the request: (Offset, LeaderEpoch); a field the
+struct literal does not set is the zero value. -/
+def fetchFieldsOf (sv : Srv) : Int × Nat :=
+  (if Gen.Protocol.fetchOffsetIsNewest then sv.log.newest else 0,
+   if Gen.Protocol.fetchCarriesEpoch then sv.leaderEpoch else 0)
 
 /-! ### records -/
 
@@ -292,7 +336,7 @@ def becomeLeader (c : Cfg) (me : Sid) (sv : Srv) : Srv :=
     | some _ => isr0
     | none => mSet isr0 me (-1)
   let isr2 := (updateOffset isr1 me log.newest).1
-  { sv with log := log, isrOff := isr2, queue := [], caughtUp := [], role := .leader, recovered := false }
+  { sv with log := log, isrOff := isr2, queue := [], caughtUp := [], seen := [], role := .leader, recovered := false }
 
 /-- `becomeFollower`, first half: stop, send the leader-offset request for `LastLeaderEpoch()`. -/
 def becomeFollower (me : Sid) (sv : Srv) : Srv × Net :=
@@ -354,6 +398,7 @@ inductive Step where
   | shrinkDecision (l : Sid) (r : Sid)
   | expandDecision (l : Sid) (r : Sid)
   | clearCaughtUp (l : Sid) (r : Sid)
+  | clearSeen (l : Sid) (r : Sid)
   | electDecision (cand : Sid)
   | raftCommit (op : MetaOp)
   | applyNext (s : Sid)
@@ -445,20 +490,24 @@ def commitStep (c : Cfg) (sv : Srv) : Srv × List Ack :=
 
 /-- `handleReplicationRequest` + one iteration of the replicator loop on leader `sv`. -/
 def serveStep (c : Cfg) (sv : Srv) (src : Sid) (offset : Int) (epoch : Nat) (rid : Nat) : Srv × List Net :=
-  if Gen.Protocol.replReqEpochZeroCmp.evalNat epoch 0 && Gen.Protocol.replReqEpochCmp.evalNat epoch sv.leaderEpoch then (sv, [])
+  if rejectFetch epoch sv.leaderEpoch then (sv, [])
   else if !(decide (src < c.n)) then (sv, [])
   else
     let (isr, upd) := updateOffset sv.isrOff src offset
     let cc := if upd then min c.n (sv.commitCheck + 1) else sv.commitCheck
-    let sv := { sv with isrOff := isr, commitCheck := cc }
+    -- replicator.start: `r.lastSeen = req.received` for every request that reaches the replicator
+    let sv := { sv with isrOff := isr, commitCheck := cc, seen := sInsert sv.seen src }
     let latest := sv.log.newest
     if Gen.Protocol.caughtUpCmp.evalInt offset latest then
+      -- `r.caughtUp(…)`: `r.lastCaughtUp = req.received`
       ({ sv with caughtUp := mSet sv.caughtUp src offset }, [.replResp src rid sv.leaderEpoch sv.log.hw []])
     else
       let recs := match sv.log.readUncommitted (offset + Gen.Protocol.serveReadAddend) with
         | .ok rs => rs
         | _ => []
-      (sv, [.replResp src rid sv.leaderEpoch sv.log.hw recs])
+      -- lastCaughtUp is refreshed here as well iff the call is NOT under the offset comparison
+      ({ sv with caughtUp := if Gen.Protocol.caughtUpGuarded then sv.caughtUp else mSet sv.caughtUp src offset },
+       [.replResp src rid sv.leaderEpoch sv.log.hw recs])
 
 /-- `handleReplicationResponse` on a follower. -/
 def applyRespStep (sv : Srv) (epoch : Nat) (hw : Int) (recs : List Rec) : Srv :=
@@ -496,7 +545,7 @@ def step (c : Cfg) (st : State) : Step → Option State
     if !(sv.up && sv.role = .follower) then none else
     let rid := sv.rid + 1
     pure { (st.set f { sv with rid := rid, waiting := some rid }) with
-           net := st.net ++ [.replReq f sv.log.newest sv.leaderEpoch rid] }
+           net := st.net ++ [.replReq f (fetchFieldsOf sv).1 (fetchFieldsOf sv).2 rid] }
   | .serve l m => do
     let sv ← st.get l
     if !isLeaderUp sv || !st.net.contains m then none else
@@ -524,24 +573,28 @@ def step (c : Cfg) (st : State) : Step → Option State
     let mv := metaView c.n st.committed
     -- replicator.tick: out of sync ∧ in the ISR ⇒ ShrinkISR; controller: leader and epoch must match
     if c.fixes.atomicPropose && !st.proposed.isEmpty then none else
-    if !isLeaderUp sv || r = l || !(keys sv.isrOff).contains r || (lookup sv.caughtUp r).isSome then none
+    if !isLeaderUp sv || r = l || !(decide (r < c.n)) || !tickShrinks sv r then none
     else if Gen.Protocol.shrinkLeaderCmp.evalNat l mv.leader || Gen.Protocol.shrinkEpochCmp.evalNat sv.leaderEpoch mv.epoch then none
     else pure { st with proposed := st.proposed ++ [.shrink r] }
   | .expandDecision l r => do
     let sv ← st.get l
     let mv := metaView c.n st.committed
     if c.fixes.atomicPropose && !st.proposed.isEmpty then none else
-    if !isLeaderUp sv || r = l || !(decide (r < c.n)) || (keys sv.isrOff).contains r then none else
-    match lookup sv.caughtUp r with
-    | none => none
-    | some at_ =>
-      if c.fixes.expandNow && at_ < sv.log.hw then none
-      else if Gen.Protocol.expandLeaderCmp.evalNat l mv.leader || Gen.Protocol.expandEpochCmp.evalNat sv.leaderEpoch mv.epoch then none
-      else pure { st with proposed := st.proposed ++ [.expand r] }
+    if !isLeaderUp sv || r = l || !(decide (r < c.n)) || !tickExpands sv r then none else
+    -- the offset at which the replica was last seen caught up (ghost; -1: never within the window)
+    let at_ := (lookup sv.caughtUp r).getD (-1)
+    if c.fixes.expandNow && at_ < sv.log.hw then none
+    else if Gen.Protocol.expandLeaderCmp.evalNat l mv.leader || Gen.Protocol.expandEpochCmp.evalNat sv.leaderEpoch mv.epoch then none
+    else pure { st with proposed := st.proposed ++ [.expand r] }
   | .clearCaughtUp l r => do
     let sv ← st.get l
     if !isLeaderUp sv || (lookup sv.caughtUp r).isNone then none else
     pure (st.set l { sv with caughtUp := mErase sv.caughtUp r })
+  | .clearSeen l r => do
+    let sv ← st.get l
+    -- lastCaughtUp ≤ lastSeen: the "seen" timer can only run out after the "caught up" timer
+    if !isLeaderUp sv || !sv.seen.contains r || (lookup sv.caughtUp r).isSome then none else
+    pure (st.set l { sv with seen := sv.seen.filter (· ≠ r) })
   | .electDecision cand =>
     let mv := metaView c.n st.committed
     -- electNewPartitionLeader: `len(isr) <= 1` ⇒ no candidates; candidates = ISR minus the leader
@@ -618,6 +671,7 @@ inductive IStep where
   | shrinkDecision (l : Sid) (r : Sid)
   | expandDecision (l : Sid) (r : Sid)
   | clearCaughtUp (l : Sid) (r : Sid)
+  | clearSeen (l : Sid) (r : Sid)
   | electDecision (cand : Sid)
   | raftCommit (op : MetaOp)
   | applyNext (s : Sid)
@@ -638,6 +692,7 @@ def resolve (st : State) : IStep → Option Step
   | .shrinkDecision l r => some (.shrinkDecision l r)
   | .expandDecision l r => some (.expandDecision l r)
   | .clearCaughtUp l r => some (.clearCaughtUp l r)
+  | .clearSeen l r => some (.clearSeen l r)
   | .electDecision c => some (.electDecision c)
   | .raftCommit op => some (.raftCommit op)
   | .applyNext s => some (.applyNext s)
